@@ -64,6 +64,9 @@ pub fn check(id: &str, tier: Tier) -> i32 {
       if id == "C20" {
         // "except through clear()": afterwards the accounting starts again from 0 with the minimum segment size in force
         a.push(Op::Clear);
+        // moving the cursor is not a reason for discarded() to go down either
+        a.push(Op::Rewind(Pos::Start(0)));
+        a.push(Op::Rewind(Pos::Cur(-20)));
       }
       (a, if id == "C10" { O_FREELIST } else { O_DISCARDED }, false, 4)
     }
@@ -188,6 +191,26 @@ pub fn check(id: &str, tier: Tier) -> i32 {
     let cells_z = cells(&[(Backend::Vec, false), (Backend::Vec, true)], cap_plain, cap_unify);
     explore(&run, &spec_z, &cells_z, &all_starts, id);
     passes.push(json!({"cells": cells_z.len(), "starts": all_starts.len(), "alphabet": zst.len(), "depth": 3, "kind": "zero-sized types", "wall_s": tz.elapsed().as_secs_f64()}));
+  }
+  if id == "C01" || id == "C03" || id == "C10" || id == "C11" {
+    // types aligned beyond a free-list node (32, 64) on arenas whose maximum alignment allows them: from fresh space
+    // and from recycled segments (whose data starts at 8 mod 16 / mod 32 / mod 64), next to live neighbours
+    use Op::*;
+    use Sz::*;
+    let (a32, a32b, a64, z32) = (Ty::L(32, 32), Ty::L(32, 64), Ty::L(64, 64), Ty::L(32, 0));
+    let over = vec![B(N(7)), B(N(40)), B(N(88)), B(R), T(a32), T(a64), TO(a32b), AB(a32, N(5)), ABO(a64, N(0)), AB(z32, N(3)), D(0), D(1), D(2), F(0)];
+    let to = std::time::Instant::now();
+    let spec_o = Spec { alphabet: over.clone(), depth: if thorough { 5 } else { 4 }, ..spec.clone() };
+    let mut cells_o = vec![];
+    for fl in [Fl::Optimistic, Fl::Pessimistic] {
+      for (b, u, cap) in [(Backend::Vec, true, 512u32), (Backend::Anon, false, 449)] {
+        let mut c = Cfg::new(fl, b, u, cap);
+        c.max_align = 64;
+        cells_o.push(c);
+      }
+    }
+    explore(&run, &spec_o, &cells_o, &[Start::fresh(), all_starts[1].clone(), all_starts[5].clone()], id);
+    passes.push(json!({"cells": cells_o.len(), "starts": 3, "alphabet": over.iter().map(|o| o.short()).collect::<Vec<_>>(), "depth": spec_o.depth, "kind": "over-aligned types (32, 64) with maximum alignment 64", "wall_s": to.elapsed().as_secs_f64()}));
   }
   if id == "C20" {
     c20_readonly(&run);
@@ -432,7 +455,7 @@ pub fn replay_c13_file(case: &serde_json::Value) -> i32 {
 pub fn c13_single_threaded(run: &Run, thorough: bool) {
   use Op::*;
   use Sz::*;
-  let alphabet = vec![B(N(7)), BO(N(16)), BO(N(0)), AB(U64, N(3)), ABO(U64, N(3)), ABO(A16, N(1)), T(Ty::Dc), TO(Ty::Dc), TO(U64), TO(UNIT), T(U32), D(0), D(1), D(2), X(0), X(1), F(0)];
+  let alphabet = vec![B(N(7)), BO(N(16)), BO(N(0)), AB(U64, N(3)), ABO(U64, N(3)), ABO(A16, N(1)), T(Ty::Dc), TO(Ty::Dc), TO(U64), TO(UNIT), T(U32), T(Ty::DcZ), TO(Ty::DcZ), D(0), D(1), D(2), X(0), X(1), F(0)];
   let depth = if thorough { 4 } else { 3 };
   let mut items = vec![];
   for fl in Fl::ALL {
